@@ -885,8 +885,11 @@ func replayFailure(cfg *runConfig, r *OblResult) (path string, confirmed bool, n
 		return path, false, rec.Note
 	}
 	// hand-written scenario registered for this clause: exercises the defect class on the real code
-	if r.O.Clause != nil && r.O.Gen.con != nil && r.O.Gen.con.Scenarios != nil {
-		lab := r.O.Clause.Label
+	if r.O.Gen != nil && r.O.Gen.con != nil && r.O.Gen.con.Scenarios != nil {
+		lab := r.O.Kind // obligations without a clause (lock-order, safe-*) are addressed by their kind
+		if r.O.Clause != nil {
+			lab = r.O.Clause.Label
+		}
 		sc, ok := r.O.Gen.con.Scenarios[lab]
 		if !ok {
 			// part k of a split clause: label.k
